@@ -593,4 +593,20 @@ theorem ofAny_int (n : Nat) :
   · intro h
     rw [ofAny_some64, setExplicit_int, m64, if_neg (by omega)]
 
+/-! ## value-level accessors -/
+
+/-- `words`, `packed`, `bits()`, `bits(sep)` of an EUI do not involve the object's dialect at
+    all (the model functions have no dialect argument; the harness varies the dialect on the
+    implementation side): they are the C15 codecs with octet words — `words` the big-endian
+    octets, `packed` the big-endian bytes, `bits(sep)` the zero-padded octets joined by any
+    separator string, `bits()` joined by '-'. (`ei` is in `oui_ei_split`.) -/
+theorem accessors_dialect_free (v : Nat) :
+    (Eui.words 48 v = intToWords v 8 6 ∧ Eui.words 64 v = intToWords v 8 8) ∧
+    (v < 2 ^ 48 → Eui.packed 48 v = .ok (beBytes 6 v)) ∧ (v < 2 ^ 64 → Eui.packed 64 v = .ok (beBytes 8 v)) ∧
+    (∀ sep, Eui.bits 48 v (some sep) = intToBits v 8 6 sep ∧ Eui.bits 64 v (some sep) = intToBits v 8 8 sep) ∧
+    (Eui.bits 48 v none = intToBits v 8 6 ['-'] ∧ Eui.bits 64 v none = intToBits v 8 8 ['-']) := by
+  refine ⟨⟨rfl, rfl⟩, ?_, ?_, fun sep => ⟨rfl, rfl⟩, ⟨rfl, rfl⟩⟩
+  · intro h; exact (C15.e48_intToPacked_spec v).1 h
+  · intro h; exact (C15.e64_intToPacked_spec v).1 h
+
 end NV.C08
